@@ -102,69 +102,84 @@ DocSuppresses(c, pr) ==
   /\ (c.scope = "rule" => ~pr.locked)              \* locked: cannot be disabled using disable / snooze comments
 
 -----------------------------------------------------------------------------
-VARIABLES phase,   \* "scen" | "comment" | "place" | "eval"
+VARIABLES phase,   \* "scen" | "target" | "form" | "spell" | "place" | "eval"
           cfg, layout, eol,
           insts,   \* every check instance pint creates for a rule under cfg (computed once per scenario)
-          rule, cmt, prior, place, target
-vars == <<phase, cfg, layout, eol, insts, rule, cmt, prior, place, target>>
+          pairs,   \* (rule, instance) pairs rule comments are generated for (computed once per scenario)
+          rule, tinst, cmt, prior, place, target
+vars == <<phase, cfg, layout, eol, insts, pairs, rule, tinst, cmt, prior, place, target>>
 
 Cfg0 == [proms |-> <<>>, blocks |-> <<>>, enabled |-> <<>>, disabled |-> <<>>]
 NoCmt == [scope |-> "none", type |-> "none", when |-> "none", tfmt |-> "rfc", match |-> ""]
 NoPlace == [at |-> "none", line |-> 0]
-Init == /\ phase = "scen" /\ cfg = Cfg0 /\ layout = 0 /\ eol = "lf" /\ insts = {} /\ rule = 0 /\ cmt = NoCmt
-        /\ prior = "none" /\ place = NoPlace /\ target = ""
+NoInst == [str |-> ""]
+Init == /\ phase = "scen" /\ cfg = Cfg0 /\ layout = 0 /\ eol = "lf" /\ insts = {} /\ pairs = {} /\ rule = 0 /\ tinst = NoInst
+        /\ cmt = NoCmt /\ prior = "none" /\ place = NoPlace /\ target = ""
 
 InstancesOf(c) == Range(GetChecksForEntry(Load(c), PlainEntry("rule", "noop"), "lint"))
 
+\* 1. scenario
 ChooseScenario(np, n, el) ==
   /\ phase = "scen"
-  /\ LET c == [Cfg0 EXCEPT !.proms = SubSeq(PromPool, 1, np), !.blocks = Layout(n)] IN
-     cfg' = c /\ insts' = InstancesOf(c)
-  /\ layout' = n /\ eol' = el /\ phase' = "comment"
-  /\ UNCHANGED <<rule, cmt, prior, place, target>>
+  /\ LET c  == [Cfg0 EXCEPT !.proms = SubSeq(PromPool, 1, np), !.blocks = Layout(n)]
+         is == InstancesOf(c) IN
+     /\ cfg' = c /\ insts' = is
+     /\ pairs' = IF OnlyBasePairs THEN {p \in (DOMAIN FileRules) \X is : <<p[1], p[2].str>> \in BasePairsOf(np, n)}
+                                  ELSE (DOMAIN FileRules) \X is
+  /\ layout' = n /\ eol' = el /\ phase' = "target"
+  /\ UNCHANGED <<rule, tinst, cmt, prior, place, target>>
 
-\* (rule, instance) pairs a rule comment is generated for
-Pairs == IF OnlyBasePairs
-         THEN {p \in Rules \X insts : <<p[1], p[2].str>> \in BasePairsOf(Len(cfg.proms), layout)}
-         ELSE Rules \X insts
-\* instances a file comment is generated for
-FileTargets == IF OnlyBasePairs
-               THEN {pr \in insts : \E r \in DOMAIN FileRules : <<r, pr.str>> \in BasePairsOf(Len(cfg.proms), layout)}
-               ELSE insts
+\* 2. scope and target: a rule comment for a (rule, instance) pair, or a file comment for an instance
+ChooseTarget(sc, r, pr) ==
+  /\ phase = "target"
+  /\ IF sc = "file" THEN r = 0 /\ \E q \in DOMAIN FileRules : <<q, pr>> \in pairs
+                    ELSE r \in Rules /\ <<r, pr>> \in pairs
+  /\ rule' = r /\ tinst' = pr /\ target' = pr.str /\ cmt' = [NoCmt EXCEPT !.scope = sc]
+  /\ phase' = "form"
+  /\ UNCHANGED <<cfg, layout, eol, insts, pairs, prior, place>>
 
-\* the documentation is silent on file/disable for checks of a locked block: such combinations are not generated
-ChooseComment(sc, tm, r, pr, m, pri) ==
-  /\ phase = "comment"
+\* 3. disable / snooze (past | future, two time formats); optionally an expired snooze already in front
+ChooseForm(tm, pri) ==
+  /\ phase = "form"
+  /\ (Slim => tm.type = "disable" /\ pri = "none")
+  /\ cmt' = [cmt EXCEPT !.type = tm.type, !.when = tm.when, !.tfmt = tm.tfmt]
+  /\ prior' = pri /\ phase' = "spell"
+  /\ UNCHANGED <<cfg, layout, eol, insts, pairs, rule, tinst, place, target>>
+
+\* 4. how the check is named. Not generated: spellings the documentation is ambiguous about, and file comments naming
+\* a check of a locked block (the documentation is silent on file/disable for locked blocks)
+ChooseSpelling(m) ==
+  /\ phase = "spell"
+  /\ m \in DocSpellings(tinst) \cup NegativeSpellings(tinst)
+  /\ (Slim => m = tinst.rep)
   /\ ~\E q \in insts : m \in AmbiguousSpellings(q)
-  /\ (Slim => tm.type = "disable" /\ m = pr.rep /\ pri = "none")
-  /\ IF sc = "file" THEN r = 0 /\ pr \in FileTargets /\ ~\E q \in insts : q.locked /\ m \in DocSpellings(q)
-                    ELSE <<r, pr>> \in Pairs
-  /\ cmt' = [scope |-> sc, type |-> tm.type, when |-> tm.when, tfmt |-> tm.tfmt, match |-> m]
-  /\ target' = pr.str /\ rule' = r /\ prior' = pri
-  /\ phase' = "place"
-  /\ UNCHANGED <<cfg, layout, eol, insts, place>>
+  /\ (cmt.scope = "file" => ~\E q \in insts : q.locked /\ m \in DocSpellings(q))
+  /\ cmt' = [cmt EXCEPT !.match = m] /\ phase' = "place"
+  /\ UNCHANGED <<cfg, layout, eol, insts, pairs, rule, tinst, prior, place, target>>
 
 TrailLines(r)   == IF AllPlacements THEN FileRules[r].first..FileRules[r].last ELSE {FileRules[r].first, FileRules[r].last}
 BetweenLines(r) == IF AllPlacements THEN FileRules[r].fields ELSE {CHOOSE x \in FileRules[r].fields : \A y \in FileRules[r].fields : x <= y}
+Places ==
+  IF cmt.scope = "file" THEN {[at |-> "top", line |-> 1], [at |-> "bottom", line |-> FileLines + 1]}
+  ELSE {[at |-> "above", line |-> FileRules[rule].first]}
+       \cup {[at |-> "between", line |-> x] : x \in BetweenLines(rule)}
+       \cup {[at |-> "trail", line |-> x] : x \in TrailLines(rule)}
 
-\* place.line is in the numbering of the committed file (FileRules)
+\* 5. where it is written; place.line is in the numbering of the committed file (FileRules)
 ChoosePlace(p) ==
   /\ phase = "place"
   /\ (Slim => p.at \in {"above", "top"})
-  /\ IF cmt.scope = "file" THEN p \in {[at |-> "top", line |-> 1], [at |-> "bottom", line |-> FileLines + 1]}
-     ELSE \/ p = [at |-> "above", line |-> FileRules[rule].first]
-          \/ \E x \in BetweenLines(rule) : p = [at |-> "between", line |-> x]
-          \/ \E x \in TrailLines(rule) : p = [at |-> "trail", line |-> x]
   /\ place' = p /\ phase' = "eval"
-  /\ UNCHANGED <<cfg, layout, eol, insts, cmt, prior, target, rule>>
+  /\ UNCHANGED <<cfg, layout, eol, insts, pairs, cmt, prior, target, rule, tinst>>
 
-PlaceSet == {[at |-> a, line |-> x] : a \in {"above", "between", "trail", "top", "bottom"}, x \in 1..(FileLines + 1)}
+AllSpellings == UNION {DocSpellings(pr) \cup NegativeSpellings(pr) : pr \in insts}
 
 Next ==
   \/ \E np \in NProms, n \in LayoutIds, el \in Eols : ChooseScenario(np, n, el)
-  \/ \E sc \in Scopes, tm \in Timing, r \in Rules \cup {0}, pr \in insts, pri \in Priors :
-        \E m \in DocSpellings(pr) \cup NegativeSpellings(pr) : ChooseComment(sc, tm, r, pr, m, pri)
-  \/ \E p \in PlaceSet : ChoosePlace(p)
+  \/ \E sc \in Scopes, r \in Rules \cup {0}, pr \in insts : ChooseTarget(sc, r, pr)
+  \/ \E tm \in Timing, pri \in Priors : ChooseForm(tm, pri)
+  \/ \E m \in (IF phase = "spell" THEN DocSpellings(tinst) \cup NegativeSpellings(tinst) ELSE {}) : ChooseSpelling(m)
+  \/ \E p \in (IF phase = "place" THEN Places ELSE {}) : ChoosePlace(p)
 Spec == Init /\ [][Next]_vars
 
 -----------------------------------------------------------------------------
@@ -216,10 +231,10 @@ InstanceTable(c) ==
   LET ins == InstancesOf(c) IN [s \in {pr.str : pr \in ins} |-> CHOOSE pr \in ins : pr.str = s]
 
 \* MC: the placement does not enter the model-level property
-MCView == <<phase, cfg, layout, rule, cmt, prior, target>>
+MCView == <<phase, cfg, layout, rule, tinst, cmt, prior, target>>
 
 \* scenarios, for the base probe of the harness
-EmitScen == phase # "comment" \/ PrintT(<<"SCEN", ToJson([cfg |-> cfg, layout |-> layout, nproms |-> Len(cfg.proms), eol |-> eol])>>)
+EmitScen == phase # "target" \/ PrintT(<<"SCEN", ToJson([cfg |-> cfg, layout |-> layout, nproms |-> Len(cfg.proms), eol |-> eol])>>)
 
 CaseRec ==
   LET pp == PriorPlace(cmt, rule, prior) IN
